@@ -508,32 +508,37 @@ class FuncRun(ExprMixin, InstrMixin, CallMixin):
         fnname = self.oname if ctx['frame'] == self.top_frame else self.inline_name(ctx)
         if self.bounded is not None:
             raise Unsupported('bounded mode not implemented for loops')
-        # 1. discover writes with a dry run from a fully havoced state
+        # 1. discover the write set W of the loop body as a fixpoint: run the body (muted) from the entry state
+        #    with W havoced, collect the writes, repeat until W is stable.  At the fixpoint the havoced state
+        #    over-approximates every loop-head state, so the writes seen from it are all the writes there are.
         writes = set()
-        self.recorders.append(writes)
-        self.mute += 1
-        try:
-            dry = st.copy()
-            for k in list(dry.cells):
-                v = dry.cells[k]
-                if not isinstance(v, (PtrV, ClosureV)):
-                    dry.cells[k] = fresh_like(v, 'dry')
-            for k in list(set(dry.heap) | set(self.heap0)):
-                if k != '#epoch':
-                    dry.heap[k] = T.fresh('dryh', T.sort_of(self.heap_get(dry, k, None)))
-            order = [b for b in cfg.order if b in body]
+        order = [b for b in cfg.order if b in body]
+        for _round in range(8):
+            found = set()
+            self.recorders.append(found)
+            self.mute += 1
             try:
-                self.run_blocks(ctx, order, {header: [(None, dry)]}, skip_header=header, region=body)
-            except Unsupported as e:
+                dry = st.copy()
+                self.apply_havoc(dry, writes, 'dry')
+                try:
+                    self.run_blocks(ctx, order, {header: [(None, dry)]}, skip_header=header, region=body)
+                except Unsupported as e:
+                    self.mute -= 1
+                    self.abstract('loop %d of %s: dry run failed (%s); everything havoced' % (n, fnname, e))
+                    self.mute += 1
+                    found.add(('heapall', None))
+                    for k in st.cells:
+                        found.add(('cell', k))
+            finally:
                 self.mute -= 1
-                self.abstract('loop %d of %s: dry run failed (%s); everything havoced' % (n, fnname, e))
-                self.mute += 1
-                writes.add(('heapall', None))
-                for k in st.cells:
-                    writes.add(('cell', k))
-        finally:
-            self.mute -= 1
-            self.recorders.pop()
+                self.recorders.pop()
+            if found <= writes:
+                break
+            writes |= found
+        else:
+            writes.add(('heapall', None))
+            for k in st.cells:
+                writes.add(('cell', k))
         for r in self.recorders:
             r.update(writes)
         # 2. invariants: init
@@ -548,25 +553,7 @@ class FuncRun(ExprMixin, InstrMixin, CallMixin):
                 self.elab_fail('loop %d invariant %r: %s' % (n, c.text, e), c)
         # 3. havoc
         h = st.copy()
-        if ('heapall', None) in writes:
-            self.havoc_all_heap(h)
-        for kind, key in writes:
-            if kind == 'cell' and key in h.cells:
-                v = h.cells[key]
-                if isinstance(v, (PtrV, ClosureV)):
-                    continue
-                nm = key[1] if isinstance(key, tuple) and len(key) > 1 else 'c'
-                h.cells[key] = fresh_like(v, 'lp_%s' % (nm,))
-                tn = self.cell_types.get(key)
-                if tn:
-                    try:
-                        for f in self.ty.facts(h.cells[key], tn, self.mode == 'wrap'):
-                            self.add_hyp(f)
-                    except Exception:
-                        pass
-            elif kind == 'heap':
-                cur = self.heap_get(h, key, None)
-                h.heap[key] = T.fresh('lp|' + key, T.sort_of(cur))
+        self.apply_havoc(h, writes, 'lp')
         # 4. assume invariants
         env1 = self.make_env(ctx, h, header)
         assumed = []
@@ -597,6 +584,27 @@ class FuncRun(ExprMixin, InstrMixin, CallMixin):
         if lspec is not None and not self.mute:
             self.cover('loop%d-head' % n, h)
         return h
+
+    def apply_havoc(self, h, writes, prefix):
+        if ('heapall', None) in writes:
+            self.havoc_all_heap(h)
+        for kind, key in sorted(writes, key=repr):
+            if kind == 'cell' and key in h.cells:
+                v = h.cells[key]
+                if isinstance(v, (PtrV, ClosureV)):
+                    continue
+                nm = key[1] if isinstance(key, tuple) and len(key) > 1 else 'c'
+                h.cells[key] = fresh_like(v, '%s_%s' % (prefix, nm))
+                tn = self.cell_types.get(key)
+                if tn:
+                    try:
+                        for f in self.ty.facts(h.cells[key], tn, self.mode == 'wrap'):
+                            self.add_hyp(f)
+                    except Exception:
+                        pass
+            elif kind == 'heap':
+                cur = self.heap_get(h, key, None)
+                h.heap[key] = T.fresh('%s|%s' % (prefix, key), T.sort_of(cur))
 
     def try_auto(self, mk, env):
         try:
